@@ -579,19 +579,30 @@ func (r *Runner) judgeSearch(o Op, d *Dump, filter []uint64, hasFilter bool, inF
 	if regime == "" {
 		return
 	}
+	// the candidates are the points whose DOCUMENT carries the field (inside the filter): a live point the
+	// index never heard of still belongs to the exact answer. Its distance is the index's distance to the
+	// vector its document stores; when that cannot be computed only the size of the answer is judged.
 	var ds []float32
+	unknown := 0
 	for _, id := range cands {
 		if x, ok := dq[id]; ok {
 			ds = append(ds, x)
+		} else if x, ok := docDq[id]; ok && x == x {
+			ds = append(ds, x)
+		} else {
+			unknown++
 		}
 	}
 	sort.Slice(ds, func(i, j int) bool { return ds[i] < ds[j] })
-	want := len(ds)
+	want := len(cands)
 	if q.Limit < want {
 		want = q.Limit
 	}
 	if len(hits) != want {
 		bad(regime, fmt.Sprintf("%d results, exact answer has %d", len(hits), want))
+		return
+	}
+	if unknown > 0 {
 		return
 	}
 	for i, h := range hits {
